@@ -128,6 +128,15 @@ def c13_session(binary, plan, positions, delays=None):
                 results.append(r)
                 break  # violated or inconclusive: never reuse an engine whose answer went missing (a late answer would be
                 # attributed to the next question)
+            if zlib.crc32(f"again/{name}/{value}".encode()) % 4 == 0:
+                # a GUI re-sends its whole option list: the same value once more, then the engine must still be there
+                r["sent_again"] = True
+                e.send(f"setoption name {name} value {value}")
+                if not settle(e, 60.0):
+                    v, sig, text = crash_or_hang(e, f"isready after setoption name {name} value {value} sent a second time")
+                    r.update({"verdict": v, "signature": f"c13.{sig}.same-value-again", "what": text})
+                    results.append(r)
+                    break
             mv = got[1].split()[1]
             if mv not in pos["legal"]:
                 r.update({"verdict": "violated", "signature": "c13.illegal-bestmove",
@@ -220,6 +229,8 @@ def c13_stage(out, tier, seed):
             for r in res:
                 stats["values"] += 1
                 stats["between" if r.get("between_searches") else "first"] += 1
+                if r.get("sent_again"):
+                    out.features["values_sent_a_second_time"] = out.features.get("values_sent_a_second_time", 0) + 1
                 if r.get("position_first"):
                     out.features["values_set_after_the_position_command"] = out.features.get("values_set_after_the_position_command", 0) + 1
                 if r.get("refused_first"):
@@ -442,7 +453,7 @@ def c17_stage(out, tier, seed):
 # ---------------------------------------------------------------------------------------
 # C14 — wall-clock part: given >= 200 ms, the move arrives before the clock runs out
 
-def c14_timed(binary, pos, clock_ms, inc_ms, mtg, white):
+def c14_timed(binary, pos, clock_ms, inc_ms, mtg, white, one_sided=False):
     e = Engine(binary)
     r = {"verdict": "held"}
     try:
@@ -450,7 +461,12 @@ def c14_timed(binary, pos, clock_ms, inc_ms, mtg, white):
         e.send(position_cmd(pos["root"], pos["moves"]))
         if not settle(e, 60.0):
             return {"verdict": "inconclusive", "what": "engine not ready"}
-        go = f"go wtime {clock_ms} btime {clock_ms} winc {inc_ms} binc {inc_ms}" + (f" movestogo {mtg}" if mtg else "")
+        if one_sided:
+            # only the clock of the side to move is given (a driver that knows nothing about the opponent's clock)
+            c = "w" if pos["fen"].split()[1] == "w" else "b"
+            go = f"go {c}time {clock_ms}" + (f" {c}inc {inc_ms}" if inc_ms else "") + (f" movestogo {mtg}" if mtg else "")
+        else:
+            go = f"go wtime {clock_ms} btime {clock_ms} winc {inc_ms} binc {inc_ms}" + (f" movestogo {mtg}" if mtg else "")
         cpu0 = e.cpu_ns()
         t0 = now()
         n = e.n_out()
@@ -510,15 +526,20 @@ def c14_stage(out, tier, seed):
     lock = threading.Lock()
     margins = []
 
+    one_sided_cases = {id(c) for k, c in enumerate(cases) if k % 5 == 2}
+
     def work(c):
         pos, clock, inc, mtg = c
-        r = c14_timed(binary, pos, clock, inc, mtg, True)
+        one = id(c) in one_sided_cases
+        r = c14_timed(binary, pos, clock, inc, mtg, True, one_sided=one)
         if r["verdict"] == "inconclusive":
             # retry once, serially is not needed: a second sample under whatever load there is
-            r = c14_timed(binary, pos, clock, inc, mtg, True)
+            r = c14_timed(binary, pos, clock, inc, mtg, True, one_sided=one)
         with lock:
             out.evaluations += 1
             out.features["timed_searches"] = out.features.get("timed_searches", 0) + 1
+            if one:
+                out.features["timed_searches_with_only_the_movers_clock"] = out.features.get("timed_searches_with_only_the_movers_clock", 0) + 1
             if clock == 200:
                 out.features["timed_searches_at_200ms"] = out.features.get("timed_searches_at_200ms", 0) + 1
             if mtg == 1:
@@ -910,6 +931,53 @@ def c08_session(binary, plan):
     return blocks
 
 
+LINE_OK = re.compile(r"^(info depth \d+ seldepth \d+ score (cp|mate) -?\d+ time \d+ nodes \d+ nps \d+ hashfull \d+ tbhits \d+ pv( [a-h][1-8][a-h][1-8][qrbn]?)+|bestmove [a-h][1-8][a-h][1-8][qrbn]?|readyok)$")
+
+
+def c08_flood_session(binary, positions, n_searches, depth):
+    """Searches during which the GUI keeps asking 'isready': two threads write to one stdout. Every line that comes out
+    must be ONE well-formed response (an info line, a bestmove, a readyok) - returns the list of lines that are not."""
+    e = Engine(binary)
+    bad = []
+    stats = {"pings": 0, "info": 0, "searches": 0}
+    try:
+        e.send("setoption name Hash value 16")
+        if not settle(e, 60):
+            return None, stats
+        for k in range(n_searches):
+            pos = positions[k % len(positions)]
+            e.send(position_cmd(pos["root"], pos["moves"]))
+            n = e.n_out()
+            e.send(f"go depth {depth}")
+            sent = 0
+            while sent < 4000:
+                with e.cv:
+                    done = any(x.startswith("bestmove") or "bestmove " in x for _, x in e.out_lines[n:])
+                if done or not e.alive():
+                    break
+                for _ in range(8):
+                    e.send("isready")
+                sent += 8
+            got = e.wait_line(lambda x: "bestmove " in x, n, 120.0)
+            if got is None:
+                break
+            settle(e, 60)
+            with e.cv:
+                lines = [x for _, x in e.out_lines[n:]]
+            stats["pings"] += sent
+            stats["searches"] += 1
+            for x in lines:
+                if x.startswith("info depth"):
+                    stats["info"] += 1
+                if x and not LINE_OK.match(x):
+                    bad.append((pos["fen"], x))
+            if bad:
+                break
+    finally:
+        e.close()
+    return bad, stats
+
+
 def c08_stage(out, tier, seed):
     import os  # noqa: PLC0415
     import subprocess  # noqa: PLC0415
@@ -983,6 +1051,22 @@ def c08_stage(out, tier, seed):
             out.features["binary_searches_checked"] = int(f[1])
             out.features["binary_info_lines"] = int(f[2])
             out.features["binary_mate_announcements"] = int(f[3])
+    # two threads, one stdout: searches with a flood of 'isready' from the GUI side
+    roomy = [p for p in positions if sum(c.isalpha() for c in p["fen"].split()[0]) >= 14] or positions
+    floods = [(b, roomy[i::4][:6] or roomy) for i, b in enumerate((bins * 4)[:4 if not thorough else 8])]
+    with ThreadPoolExecutor(max_workers=4) as ex:
+        fres = list(ex.map(lambda f: (f[0][0], c08_flood_session(f[0][1], f[1], 40 if thorough else 14, 6)), floods))
+    for bname, (bad, st) in fres:
+        out.features["binary_info_lines_during_isready_flood"] = out.features.get("binary_info_lines_during_isready_flood", 0) + st["info"]
+        out.features["binary_isready_sent_during_searches"] = out.features.get("binary_isready_sent_during_searches", 0) + st["pings"]
+        out.evaluations += st["searches"]
+        if bad is None:
+            out.add_inconclusive({"stage": f"lines-binary-{bname}", "what": "engine not ready for the flood session"})
+            continue
+        for fen, x in bad[:3]:
+            out.add_violation(f"lines-binary-{bname}", "c08.garbled-output-line",
+                              f"while 'isready' was being sent during a search of {fen} the engine printed the line '{x[:300]}', which is not one "
+                              f"well-formed response", {"kind": "py", "check": "c08", "binary": bname, "pos": {"fen": fen}, "depth": 6})
     out.groups["c08-binary"] = len({(o[0], o[1]["fen"], o[2]) for o in owners})
     out.rules.append("process-level: every 'info depth .. score .. pv ..' line printed by the real binary for fixed-depth "
                      "searches (tables reused across a session; two in three searches of depth <= 4 also carry a movetime or a "
